@@ -3,6 +3,7 @@
 From ToughV Require Import Model.Base Model.Pct Model.Json Model.CJson Model.ClientRun Model.TName
      Model.Glob Model.Deleg Model.Keys Model.Editor.
 From ToughV Require Import Model.RootCmd.
+From ToughV Require Import Model.Http.
 
 Definition run_C16 (op : N) (a : list tree) : tree :=
   match op, a with
@@ -105,6 +106,13 @@ Definition run_C17 (op : N) (a : list tree) : tree :=
   | [kept; v; added] => tree_of_rview (update (t_bool kept) (rview_of_tree v) (kvs_of_tree added))
   | _ => T [L 999]
   end.
+(* C18: op 0 one fetch, op 1 a batch of fetches (the harness runs a batch concurrently) *)
+Definition run_C18 (op : N) (a : list tree) : tree :=
+  if op =? 0 then run_http_case a
+  else match a with
+       | [batch] => T (map (fun c => run_http_case (t_list c)) (t_list batch))
+       | _ => T [L 999]
+       end.
 
 Definition run_case (t : tree) : tree :=
   match t with
@@ -117,6 +125,7 @@ Definition run_case (t : tree) : tree :=
       else if p =? 17 then run_C17 op args
       else if p =? 6 then run_client op args
       else if p =? 20 then run_C20 op args
+      else if p =? 18 then run_C18 op args
       else T [L 999]
   | _ => T [L 999]
   end.
